@@ -31,6 +31,8 @@ pub struct Flags {
     pub sketch: bool,     // C14 cache clause
     pub iter_exact: bool, // C16
     pub term: bool,       // C09
+    /// C03: an entry the lock-step model keeps is gone although nothing had to leave for capacity
+    pub loss: bool,
     /// which property a completeness failure is reported under
     pub complete_as: &'static str,
     pub inval_as: &'static str,
@@ -51,6 +53,7 @@ impl Flags {
             "C03" => {
                 f.complete = true;
                 f.fits = true;
+                f.loss = true;
             }
             "C04" => f.cap = true,
             "C05" => f.ttl = true,
@@ -86,6 +89,7 @@ impl Flags {
                     sketch: true,
                     iter_exact: true,
                     term: true,
+                    loss: true,
                     complete_as: "C03",
                     inval_as: "C01",
                 }
@@ -95,7 +99,7 @@ impl Flags {
         f
     }
     fn predictive(&self) -> bool {
-        self.lru || self.admit
+        self.lru || self.admit || self.loss
     }
 }
 
@@ -165,6 +169,7 @@ enum Prim {
     Counters,
     GetFresh { sel: u16 },
     ContainsFresh { sel: u16 },
+    IterAdvance { after: u8, ns: u64 },
 }
 
 fn expand(ops: &[Op]) -> Vec<(usize, Prim)> {
@@ -194,6 +199,7 @@ fn expand(ops: &[Op]) -> Vec<(usize, Prim)> {
             Op::Counters => v.push((i, Prim::Counters)),
             Op::GetFresh { sel } => v.push((i, Prim::GetFresh { sel })),
             Op::ContainsFresh { sel } => v.push((i, Prim::ContainsFresh { sel })),
+            Op::IterAdvance { after, ns } => v.push((i, Prim::IterAdvance { after, ns })),
         }
     }
     v
@@ -851,6 +857,29 @@ impl<'a> Exec<'a> {
                 }
             }
             Prim::GetFresh { .. } | Prim::ContainsFresh { .. } => unreachable!(),
+            Prim::IterAdvance { after, ns } => {
+                // one iteration held open across a clock advance: what is yielded after
+                // the advance is judged at the new reading
+                let (a, b) = self.sub().iter_with_advance(after as usize, ns);
+                self.tr(format!("iter() -> first {:?}; advance {}; then {:?}", a.iter().map(|(k, s, _)| format!("k{k}=v{s}")).collect::<Vec<_>>(), fmt_ns(ns), b.iter().map(|(k, s, _)| format!("k{k}=v{s}")).collect::<Vec<_>>()));
+                for (k, seq, _) in &a {
+                    self.check_shown(step, "iter", *k, *seq)?;
+                }
+                self.now += ns;
+                for (k, seq, _) in &b {
+                    self.check_shown(step, "iter (continued after the clock advanced)", *k, *seq)?;
+                }
+                let mut seen = BTreeSet::new();
+                for (k, _, _) in a.iter().chain(b.iter()) {
+                    if !seen.insert(*k) && (self.flags.iter_exact || self.flags.stale) {
+                        viol!(if self.flags.iter_exact { "C16" } else { "C01" }, step, "iteration yielded key k{k} twice");
+                    }
+                }
+                if !b.is_empty() {
+                    self.stats.inc("iterations_continued_after_clock_advance");
+                }
+                self.results.push((step, format!("iter_adv={:?}", a.iter().chain(b.iter()).map(|x| (x.0, x.1)).collect::<BTreeSet<_>>())));
+            }
             Prim::Counters => {
                 let ec = self.subr().entry_count();
                 let ws = self.subr().weighted_size();
@@ -973,7 +1002,7 @@ impl<'a> Exec<'a> {
     ) -> Result<(), Violation> {
         let sync = self.is_sync();
         let quiescent_point = if sync { explicit_sync && post.quiescent() } else { true };
-        let is_time = matches!(prim, Prim::Advance { .. } | Prim::AdvanceTo { .. });
+        let is_time = matches!(prim, Prim::Advance { .. } | Prim::AdvanceTo { .. } | Prim::IterAdvance { .. });
         if !is_time && !matches!(prim, Prim::Sync) {
             self.window.push(WindowOp { step, prim: prim.clone(), now: self.now, expired_before, matched });
         }
@@ -1423,6 +1452,15 @@ impl<'a> Exec<'a> {
                 return Ok(());
             }
             let opdesc = window.first().map(|w| format!("{:?}", w.prim)).unwrap_or_default();
+            if self.flags.loss && evicted.is_empty() && decision.as_ref().map_or(true, |d| actual.contains(&d.0) == d.1) {
+                let missing: Vec<u32> = predicted.difference(&actual).copied().filter(|k| !expired.contains(k) && !self.dead_hi(*k) && self.cur(*k).is_some()).collect();
+                if let Some(k) = missing.first() {
+                    let e = self.cur(*k).cloned().unwrap();
+                    viol!("C03", step,
+                        "{opdesc}: k{k} (v{}, inserted at {}, last access {}) is live and nothing had to leave for capacity in this step (resident weight {} of {:?}), yet the cache no longer holds it; residents before {:?}, after {:?}",
+                        e.seq, e.t_mod, e.acc_hi, self.rec.iter().map(|x| x.1 as u64).sum::<u64>(), self.cfg.cap, self.rec.iter().map(|x| x.0).collect::<Vec<_>>(), actual);
+                }
+            }
             let recency: Vec<String> = self.rec.iter().map(|(k, w)| format!("k{k}(w{w},est{})", self.q_est.get(k).copied().unwrap_or(0))).collect();
             if let Some((k, admit, c_est, v_est, victims)) = &decision {
                 let actual_admit = actual.contains(k);
